@@ -92,6 +92,19 @@ pub fn run(em: &mut Emitter, rng: &mut Rng, thorough: bool) {
         for kind in 0..10u8 { source_case(em, rng, mode, &ps, &data, kind); }
     }
     run_grants(em, rng, thorough);
+    // every typed leaf reader (incl. the skipping variants) and random content scripts on a value of its own type
+    for _ in 0..(if thorough { 80_000 } else { 2_500 }) {
+        let ty = rng.below(19) as u8;
+        let n = rng.range(0, 6) as usize; let mut c = rng.bytes(n);
+        if n > 0 && rng.bool() { c[0] = *rng.pick(&[0u8, 1, 3, 7, 0xff, 0x7f, 0x80, 0x2a]); }
+        if n > 0 && matches!(ty, 12 | 13) { c[n - 1] &= 0x7f; }
+        let tag = match ty { 10 => 1u8, 11 => 5, 12 | 13 => 6, 14 | 15 => 3, 18 => 4, _ => 2 };
+        let mut data = vec![tag, n as u8]; data.extend(&c); data.extend_from_slice(&[0x05, 0x00]);
+        let body = if ty == 18 { Body::Script((0..rng.range(1, 5)).map(|_| crate::c03::random_sop(rng, n)).collect()) } else { Body::Typed(ty) };
+        let ps = vec![Prog::Take { opt: true, kind: if ty == 14 || ty == 15 { 0 } else { 1 }, exp: None, body }, Prog::ReadAll];
+        let m = rng.below(3) as u8;
+        for kind in 0..10u8 { source_case(em, rng, m, &ps, &data, kind); }
+    }
     // typed leaves with two-octet peeks (INTEGER check_head) under exact grants
     for _ in 0..(if thorough { 80_000 } else { 2_000 }) {
         let n = rng.range(0, 5) as usize; let mut c = rng.bytes(n); if n > 0 && rng.bool() { c[0] = *rng.pick(&[0u8, 0xff, 0x7f, 0x80]); }
@@ -270,6 +283,12 @@ fn typed_reader_faults(em: &mut Emitter, which: u8, mode: u8, data: &[u8], polic
 
 pub fn run08(em: &mut Emitter, rng: &mut Rng, thorough: bool) {
     // ---- 802: typed value readers ----
+    // long primitive contents skipped in one go (skip_all of thousands of octets)
+    for &n in &[4095usize, 4096, 4097, 5000, 9000] { for mode in [0u8, 2] { for which in [9u8, 1, 12] {
+        let mut content = vec![0u8; n]; for (i, b) in content.iter_mut().enumerate().skip(1) { *b = (i % 251) as u8; }
+        let mut t = vec![0x03u8]; t.extend(ref_len_octets(content.len())); t.extend(&content);
+        for policy in [Policy::Exact, Policy::Chunk(700), Policy::Chunk(4096), Policy::All] { typed_reader_faults(em, which, mode, &t, policy); }
+    }}}
     for _ in 0..(if thorough { 6_000 } else { 400 }) {
         let which = rng.below(14) as u8;
         let mode = rng.below(3) as u8;
